@@ -20,7 +20,7 @@ import (
 // ---------------------------------------------------------------------------- case
 
 type Op struct {
-	Kind  string `json:"k"` // ins | rm | clr | set | unset | repl
+	Kind  string `json:"k"` // ins | rm | clr | set | unset | repl | flap
 	Name  string `json:"n"`
 	Face  uint64 `json:"f,omitempty"`
 	Cost  uint64 `json:"c,omitempty"`
@@ -30,6 +30,10 @@ type Op struct {
 	// the same prefix, of ancestors, of descendants (seeded C05-r7-1 resolved the nodes of the whole
 	// batch first and pruned some of them while applying it)
 	Batch []Repl `json:"b,omitempty"`
+	// flap: Rep times "insert (Face, Cost) at Name, remove it again" -- a long history in one operation
+	// (a table that counts its removals, compacts itself or rebuilds an index after so many of them
+	// must come out the same; seeded C05-r9-1 compacted after 1024 prunes and lost the next insertion)
+	Rep int `json:"rep,omitempty"`
 }
 
 type Repl struct {
@@ -148,6 +152,10 @@ func (m *model) apply(op Op) {
 		m.strat[op.Name] = strategies[op.Strat]
 	case "unset":
 		delete(m.strat, op.Name)
+	case "flap":
+		if op.Rep > 0 { // the last round decides: the face is gone from that prefix
+			m.apply(Op{Kind: "rm", Name: op.Name, Face: op.Face})
+		}
 	}
 }
 
@@ -239,6 +247,10 @@ func genCase(t *rapid.T) Case {
 	m := newModel()
 	touched := []string{}
 	nops := rapid.IntRange(1, 60).Draw(t, "nops")
+	kinds := []string{"ins", "ins", "ins", "rm", "rm", "clr", "set", "set", "unset", "repl"}
+	if rapid.IntRange(0, 9).Draw(t, "longHistory") == 0 {
+		kinds = append(kinds, "flap") // one case in ten: about one operation in eleven repeats itself up to 2100 times
+	}
 	// one case in twelve lives around one very long name (about 64 components and beyond: a table that
 	// keeps the set of prefix lengths in use in a machine word must not stop at the word size); such
 	// cases are short, every lookup walks the whole chain
@@ -297,7 +309,7 @@ func genCase(t *rapid.T) Case {
 	}
 	for i := 0; i < nops; i++ {
 		var op Op
-		switch rapid.SampledFrom([]string{"ins", "ins", "ins", "rm", "rm", "clr", "set", "set", "unset", "repl"}).Draw(t, "kind") {
+		switch rapid.SampledFrom(kinds).Draw(t, "kind") {
 		case "repl":
 			op = Op{Kind: "repl"}
 			for k := rapid.IntRange(1, 4).Draw(t, "batch"); k > 0; k-- {
@@ -315,6 +327,9 @@ func genCase(t *rapid.T) Case {
 				op.Batch = append(op.Batch, r)
 				touched = append(touched, r.Name)
 			}
+		case "flap":
+			op = Op{Kind: "flap", Name: pick("n"), Face: uint64(rapid.IntRange(1, 5).Draw(t, "face")), Cost: 3,
+				Rep: rapid.SampledFrom([]int{3, 100, 1023, 1024, 1025, 2100}).Draw(t, "flapRep")}
 		case "ins":
 			op = Op{Kind: "ins", Name: pick("n"), Face: uint64(rapid.IntRange(1, 5).Draw(t, "face")),
 				Cost: rapid.SampledFrom([]uint64{0, 1, 1, 2, 10, 1 << 40}).Draw(t, "cost")}
@@ -442,6 +457,11 @@ func applyOp(t table.FibStrategy, op Op) {
 		t.SetStrategyEnc(n, mkName(strategies[op.Strat]))
 	case "unset":
 		t.UnSetStrategyEnc(n)
+	case "flap":
+		for i := 0; i < op.Rep; i++ {
+			t.InsertNextHopEnc(mkName(op.Name), op.Face, op.Cost)
+			t.RemoveNextHopEnc(mkName(op.Name), op.Face)
+		}
 	}
 }
 
@@ -601,7 +621,7 @@ func execC05(c Case) (res evid.Result) {
 	return res
 }
 
-const ruleC05 = "rapid state-machine histories (<=60 ops: insert/update/remove/clear next hop, set/unset strategy) over names from {a,b,c}^0..7 (one case in twelve: a short history around a name of 33..70 components) applied to the name-tree FIB, the hash-table FIB (m drawn 1..6) and a reference map; after every op every name in the closure (prefixes of touched names, 1- and 2-component extensions, extra random names up to depth 8) is looked up in both tables and both listings are compared. Non-trivial: >=1 removal/clear/unset on a registered prefix that has a registered ancestor and a registered descendant AND >=1 queried name longer than m; distinct by hash of the case"
+const ruleC05 = "rapid state-machine histories (<=60 ops: insert/update/remove/clear next hop, set/unset strategy, batch replacement; in one case in ten also 'insert and remove again' repeated 3..2100 times as one operation) over names from {a,b,c}^0..7 (one case in twelve: a short history around a name of 33..70 components) applied to the name-tree FIB, the hash-table FIB (m drawn 1..6) and a reference map; after every op every name in the closure (prefixes of touched names, 1- and 2-component extensions, extra random names up to depth 8) is looked up in both tables and both listings are compared. Non-trivial: >=1 removal/clear/unset on a registered prefix that has a registered ancestor and a registered descendant AND >=1 queried name longer than m; distinct by hash of the case"
 
 func TestC05Fib(t *testing.T) {
 	rec := evid.New("C05", "TestC05Fib", ruleC05)
